@@ -749,6 +749,74 @@ fn c_opseq(ctx: &Ctx, env: &Env, g: &(String, String), depth: usize) {
     }
 }
 
+
+/// typed constructors and llg_validate_grammar at the root: the constraint built by llg_new_constraint_{regex,json,lark}
+/// gives the Rust constraint's first mask; llg_validate_grammar agrees with compilation and respects its
+/// message buffer at every length
+fn typed_constructors(ctx: &Ctx, env: &Env, g: &(String, String)) -> Result<(), Violation> {
+    let mut init: LlgConstraintInit = unsafe { std::mem::zeroed() };
+    llg_constraint_init_set_defaults(&mut init, env.ctok.ptr);
+    init.log_stderr_level = 0;
+    init.log_buffer_level = 0;
+    let ctype = CString::new(g.0.clone()).unwrap();
+    let cdata = CString::new(g.1.clone()).unwrap();
+    let v = |check: &str, what: serde_json::Value| viol(check, "ffi-result-differs", g, env.n_vocab, &[], what);
+    let cc = match g.0.as_str() {
+        "regex" => llg_new_constraint_regex(&init, cdata.as_ptr()),
+        "json_schema" => llg_new_constraint_json(&init, cdata.as_ptr()),
+        "lark" => llg_new_constraint_lark(&init, cdata.as_ptr()),
+        _ => return Ok(()),
+    };
+    let top = TopLevelGrammar::from_tagged_str(&g.0, &g.1).map_err(|e| v("tagged_str", json!({"err": e.to_string()})))?;
+    let rp = env.factory.create_parser(top);
+    let cerr = unsafe { llg_get_error(&*cc) };
+    let mut res = Ok(());
+    match rp {
+        Err(_) => {
+            if cerr.is_null() {
+                res = Err(v("typed_constructor_accepts_what_rust_refuses", json!({})));
+            }
+        }
+        Ok(rp) => {
+            let mut rc = Constraint::new(rp);
+            let mut r = LlgMaskResult { sample_mask: std::ptr::null(), temperature: 0.0, is_stop: false };
+            let code = unsafe { llg_compute_mask(&mut *cc, &mut r) };
+            let rr = rc.compute_mask().map(|x| (x.sample_mask.clone(), x.is_stop()));
+            let same = match &rr {
+                Ok((Some(m), stop)) => code == 0 && r.is_stop == *stop && !r.sample_mask.is_null() && unsafe { std::slice::from_raw_parts(r.sample_mask, m.as_slice().len()) } == m.as_slice(),
+                Ok((None, stop)) => code == 0 && r.is_stop == *stop,
+                Err(_) => code != 0,
+            };
+            if !same {
+                res = Err(v("typed_constructor_first_mask", json!({"code": code})));
+            }
+        }
+    }
+    unsafe { llg_free_constraint(cc) };
+    res?;
+    // validate_grammar: 0 for a grammar that compiles (1 = warnings), -1 otherwise; message buffer between canaries
+    for (data, expect_ok) in [(g.1.clone(), true), ("start: \"a\" (".to_string(), false)] {
+        let ty = if expect_ok { ctype.clone() } else { CString::new("lark").unwrap() };
+        let cd = CString::new(data).unwrap();
+        for len in [0usize, 1, 2, 8, 64] {
+            let mut buf = vec![0xA5u8; len + 8];
+            for i in 0..4 {
+                buf[i] = 0xC1;
+                buf[len + 4 + i] = 0xC1;
+            }
+            let code = unsafe { llg_validate_grammar(&init, ty.as_ptr(), cd.as_ptr(), buf.as_mut_ptr().add(4) as *mut std::os::raw::c_char, len) };
+            ctx.count("text_buffer_calls", 1);
+            let body = &buf[4..4 + len];
+            let nul = body.iter().position(|b| *b == 0);
+            let buf_ok = buf[..4].iter().all(|b| *b == 0xC1) && buf[len + 4..].iter().all(|b| *b == 0xC1) && (len == 0 || nul.is_some()) && nul.map_or(true, |k| body[k + 1..].iter().all(|b| *b == 0xA5));
+            if (expect_ok && code < 0) || (!expect_ok && code >= 0) || !buf_ok {
+                return Err(viol("validate_grammar", "ffi-buffer", g, env.n_vocab, &[], json!({"code": code, "expect_ok": expect_ok, "message_len": len, "buffer": show(&buf)})));
+            }
+        }
+    }
+    Ok(())
+}
+
 pub fn run(ctx: &Ctx) -> Coverage {
     ARMED.store(true, Ordering::SeqCst);
     let grammars: Vec<(String, String)> = vec![
@@ -783,6 +851,9 @@ pub fn run(ctx: &Ctx) -> Coverage {
             ctx.violation(v);
         }
         for g in grammars.iter() {
+            if let Err(v) = typed_constructors(ctx, &env, g) {
+                ctx.violation(v);
+            }
             explore_grammar(ctx, &env, g, depth);
             if n == 33 || (n == 64 && !ctx.quick()) {
                 c_opseq(ctx, &env, g, ctx.tier.pick(4, 5));
@@ -798,6 +869,6 @@ pub fn run(ctx: &Ctx) -> Coverage {
         ctx.machinery_error("vacuous run: llg_par_compute_mask never called");
     }
     Coverage::StateGraph {
-        rule: format!("extern \"C\" functions called from Rust in lock-step with the Rust Constraint/Matcher over all histories to depth {depth} (<= 6 successors per state) on 5 grammars and vocabulary sizes around multiples of 32; every sequence of 4 (thorough: 5) operations out of 8 on the C matcher wrapper executed blind on fresh objects (vocabulary size 33; thorough also 64); masks, commit results, validation counts, rollback, reset + consume_tokens(history), ff tokens compared; llg_matcher_compute_mask_into with exact and short lengths between canaries; llg_par_compute_mask with every destination length 0,4,..,2*mask+8, with and without callback, destination between canaries, llg_tokenize_bytes(_marker), llg_decode_tokens (all flag combinations), llg_stringify_tokens and the error string of a refused llg_new_tokenizer with every output length from 0 to the needed size + 2 between canaries (count, prefix, NUL, untouched tail); all heap blocks followed by a poisoned red zone (over-read shows as poison words, over-write as a broken zone)"),
+        rule: format!("extern \"C\" functions called from Rust in lock-step with the Rust Constraint/Matcher over all histories to depth {depth} (<= 6 successors per state) on 5 grammars and vocabulary sizes around multiples of 32; every sequence of 4 (thorough: 5) operations out of 8 on the C matcher wrapper executed blind on fresh objects (vocabulary size 33; thorough also 64); masks, commit results, validation counts, rollback, reset + consume_tokens(history), ff tokens compared; llg_matcher_compute_mask_into with exact and short lengths between canaries; llg_par_compute_mask with every destination length 0,4,..,2*mask+8, with and without callback, destination between canaries, llg_tokenize_bytes(_marker), llg_decode_tokens (all flag combinations), llg_stringify_tokens and the error string of a refused llg_new_tokenizer with every output length from 0 to the needed size + 2 between canaries (count, prefix, NUL, untouched tail); llg_new_constraint_regex|json|lark and llg_validate_grammar at the root; all heap blocks followed by a poisoned red zone (over-read shows as poison words, over-write as a broken zone)"),
     }
 }
